@@ -53,11 +53,19 @@ static std::pair<std::string, std::string> compare(const hg::Msg &rq, const hg::
     } else if (!f.cookies.empty()) return {"request_cookies", "cookies invented: " + show(f.cookies)};
     // credentials
     if (const hg::Hdr *au = rq.find("authorization")) {
-        std::string v = au->logical(); std::string dec = b64dec(v.substr(v.find(' ') + 1)); size_t c = dec.find(':');
+        std::string v = au->logical();
+        if (v.find("Digest ") != std::string::npos) { // expectation: the quoted string after username=, escapes removed; no password
+            size_t u = v.find("username=\""); std::string eu; for (size_t i = u + 10; i < v.size() && v[i] != '"'; i++) { if (v[i] == '\\' && i + 1 < v.size()) i++; eu += v[i]; }
+            if (f.auth_type != HTP_AUTH_DIGEST) return D("request_auth_type", std::to_string(f.auth_type), "digest");
+            if (!f.has_user || f.user != eu) return D("request_auth_username", f.user, eu);
+            if (f.has_pass) return D("request_auth_password", f.pass, "(none: Digest carries no password)");
+            goto credentials_done; }
+        { std::string dec = b64dec(v.substr(v.find(' ') + 1)); size_t c = dec.find(':');
         if (f.auth_type != HTP_AUTH_BASIC) return D("request_auth_type", std::to_string(f.auth_type), "basic");
         if (!f.has_user || f.user != dec.substr(0, c)) return D("request_auth_username", f.user, dec.substr(0, c));
-        if (!f.has_pass || f.pass != dec.substr(c + 1)) return D("request_auth_password", f.pass, dec.substr(c + 1));
+        if (!f.has_pass || f.pass != dec.substr(c + 1)) return D("request_auth_password", f.pass, dec.substr(c + 1)); }
     } else if (f.has_user || f.has_pass) return {"request_credentials", "credentials invented"};
+    credentials_done:
     // query parameters
     { size_t q = rq.target.find('?'); Pairs eq; if (q != std::string::npos) { std::string qs = rq.target.substr(q + 1); size_t h = qs.find('#'); if (h != std::string::npos) qs = qs.substr(0, h); size_t p = 0; std::vector<std::string> pieces; for (;;) { size_t e = qs.find('&', p); if (e == std::string::npos) { pieces.push_back(qs.substr(p)); break; } pieces.push_back(qs.substr(p, e - p)); p = e + 1; } if (!pieces.empty() && pieces.back().empty()) pieces.pop_back(); for (auto &pc : pieces) { size_t e = pc.find('='); eq.push_back({refdec::urldecode(e == std::string::npos ? pc : pc.substr(0, e), ucfg).s, e == std::string::npos ? "" : refdec::urldecode(pc.substr(e + 1), ucfg).s}); } }
       if (f.qparams != eq) return {"query_parameters", "query parameters reported " + show(f.qparams) + ", expected " + show(eq)}; }
@@ -145,6 +153,7 @@ static void campaign() {
             std::string text = case_text(pers, x, qc, sc); vc::set_current_case(text);
             std::string site; auto d = check(pers, x, qc, sc, &site);
             if (counting) { g_stats.evaluations++; g_stats.cls(qc.empty() && sc.empty() ? "whole_delivery" : "chunked_delivery"); }
+            if (A.mode == "c01") d.first.clear(); // --mode c01: the same generated exchanges serve C01; only sanitizer reports count there
             if (!d.first.empty()) { std::string sig = "C02:" + d.first + site; if (A.is_known(sig)) { if (counting) g_stats.attributed[sig]++; return {}; } return rcx::Fail{sig, text, d.second}; }
             return {};
         };
